@@ -646,6 +646,26 @@ func c20Protect(c *engine.Ctx, cs c20Case) {
 			return
 		}
 	}
+	// a second message object built over the protected message's payload list (the same SK payload sent under another
+	// Message ID) is protected: the first message stays what it was
+	if len(lm.Payloads) == 1 {
+		dFirst := engine.Dump(&lm.Payloads)
+		firstEnc, fe := lm.Encode()
+		firstEnc = append([]byte(nil), firstEnc...)
+		h2 := *lm.IKEHeader
+		h2.MessageID += 3
+		sib := &message.IKEMessage{IKEHeader: &h2, Payloads: lm.Payloads}
+		ss := engine.NewSeam(nil, nil)
+		ss.Stream = 77
+		rst := engine.Install(ss)
+		engine.Catch(func() { _, _ = ike.EncodeEncrypt(sib, sa, roleOf(cs.Role)) })
+		rst()
+		again, ae := lm.Encode()
+		if engine.Dump(&lm.Payloads) != dFirst || (fe == nil && (ae != nil || !bytes.Equal(again, firstEnc))) {
+			c.Violate("protect-alters-another-message", fmt.Sprintf("%s: protecting a second message object built over this message's payload list changed this message's Encrypted payload (or what it encodes to)", cs.Name), cs)
+			return
+		}
+	}
 	h1 := *lm.IKEHeader
 	h0.NextPayload, h0.PayloadBytes, h1.NextPayload, h1.PayloadBytes = 0, nil, 0, nil
 	if engine.Dump(&h0) != engine.Dump(&h1) {
